@@ -245,11 +245,16 @@ Definition try_into_f64 (v : value) : option spec_float :=
   | _ => None
   end.
 
-(* eq_lossy: a number on the left is compared as f64 with whatever number is on the right (an integer on
-   either side is converted first); everything else is Value's PartialEq *)
+(* eq_lossy: two integers are compared exactly as i64 (repaired by /repo 7355ec6; before, both went through f64);
+   otherwise a number on the left is compared as f64 with whatever number is on the right (an integer is
+   converted first); everything else is Value's PartialEq *)
 Definition eq_lossy (x y : value) : bool :=
   match x with
-  | VInt a => match try_into_f64 y with Some g => f_eq (of_i64 a) g | None => false end
+  | VInt a =>
+      match y with
+      | VInt b => a =? b
+      | _ => match try_into_f64 y with Some g => f_eq (of_i64 a) g | None => false end
+      end
   | VFloat f => match try_into_f64 y with Some g => f_eq f g | None => false end
   | _ => value_eq x y
   end.
@@ -318,8 +323,8 @@ Fixpoint no_nan (v : value) : bool :=
 Definition is_number (v : value) : bool :=
   match v with VInt _ | VFloat _ => true | _ => false end.
 
-(* the class of integer pairs on which `==` is known to be wrong on the pinned tree (finding C10-int-eq-lossy):
-   different integers whose conversions to f64 coincide *)
+(* the class of integer pairs on which `==` was wrong before /repo 7355ec6 (finding C10-int-eq-lossy, fixed):
+   different integers whose conversions to f64 coincide.  Only used to state that the class is now handled. *)
 Definition known_int_eq (a b : Z) : bool := negb (a =? b) && f_eq (of_i64 a) (of_i64 b).
 
 Definition exactly_one (a b c : bool) : bool :=
